@@ -26,7 +26,7 @@ def run(ctx: Ctx) -> int:
     ctx.bounds = {"script_length": n, "operations": "7 kinds incl. no-op; first op(s) fixed per process, rest symbolic",
                   "initial_flag": "symbolic", "gate_sites": "4 fixed programs x symbolic flag"}
     ctx.outside_claim = ["non-LIFO exit of context managers (not in the statement)",
-                         "gate sites other than the four fixed programs (e.g. list type annotations)"]
+                         "gated-feature shapes other than the 15 fixed programs (each of the 10 gate call sites is reached by at least one)"]
     ctx.assumptions = ["model of the intended behaviour: a stack of saved settings"]
     ctx.crosshair(jobs)
     return ctx.finish(
@@ -35,6 +35,6 @@ def run(ctx: Ctx) -> int:
              "non-trivial = precondition met, script executed against the real module and compared with the stack model after every step",
         explanation="CrossHair/z3 symbolic execution of the real experimental.py under every script of enable/disable/"
                     "enter/exit(with and without exception) operations up to the stated length, flag and gate outcome "
-                    "compared with a stack model after each step; plus the real front end on four programs with a symbolic flag",
+                    "compared with a stack model after each step; plus the real front end on 15 programs (every gate call site) with a symbolic flag",
         trusted_base=["CPython 3.12", "crosshair-tool 0.0.110", "z3 5.1", "import shim"],
     )
